@@ -56,6 +56,14 @@ CHECKS["C13"] = ("exploration",
     "classes_ are compared with the plain classifier and with each other.",
     "DESIGN.md §3 C13")
 
+CHECKS["C17"] = ("exploration",
+    "runtime history monitor: recording base regressor on tagged rows (unique id, y=g(id), w=h(id)) reconstructs "
+    "every bootstrap sample; one-sided eligibility bound (<1e-9); aggregation compared with the members' own predictions",
+    "Every model's training sample is reconstructed from the probe's log: size, row/target/weight alignment, and "
+    "that every training row is drawn within enough draws; predict / predict_sorted / predict_all are compared "
+    "with the members' predictions on float64, float32, integer and single-row batches.",
+    "DESIGN.md §3 C17")
+
 PENDING = {}
 
 
